@@ -818,7 +818,7 @@ impl Engine for C09 {
             let mut c = Case::new("C09", "filter-eval", text.as_bytes());
             c.extra.insert("store_seed".into(), wl.next_u64().into());
             c.extra.insert("p_mutate".into(), (*wl.pick(&[0u64, 0, 100, 400, 900])).into());
-            c.extra.insert("p_reenter".into(), (*wl.pick(&[0u64, 0, 0, 30, 300])).into());
+            c.extra.insert("p_reenter".into(), (*wl.pick(&[0u64, 0, 0, 30, 300, 1000])).into());
             c.origin = format!("{uname} sub={sub}");
             c
         }))
